@@ -5,10 +5,14 @@
    spec_ok : the statement of C08 on the implementation's output, without the exporter model: the normal form of the
              export is the instruction-by-instruction image (Spec.spec_instr) of the expanded listing; exporting before
              and after apply_modifiers() gives equal instruction multisets and measurement counts (library-built: the
-             identical normal form). *)
+             identical normal form).
+   A case is either such a listing-tree case (KTree) or a library-built circuit in the shared format of Lib/Run.v (KLib):
+   there `agree` is the Core model against the reported schedule (Lib.Run.agree_lib) and `spec_ok` the library clause of C08,
+   Lib.Run.lib_stim_ok: the flattened Stim program before and after unrolling is the identical text. *)
 From Coq Require Import ZArith List Bool String.
 Import ListNotations.
 From QCE Require Import Base.Prelude C08.Tree C08.Model C08.Spec.
+From QCE Require Lib.Run.
 From Gen Require Import Tables.
 Open Scope string_scope.
 Open Scope list_scope.
@@ -18,7 +22,7 @@ Inductive expo :=
 | EErr                                         (* to_stim raised *)
 | EOk (raw flattened : circuit) (nm : Z).      (* the exported circuit, circuit.flattened(), circuit.num_measurements *)
 
-Record case := MkCase {
+Record tcase := MkCase {
   c_lib : bool;                                (* library-built circuit: identical normal form demanded *)
   c_tree : list item;  c_exp : expo;           (* as built *)
   c_unrolled : option (list item * expo)       (* a second build after apply_modifiers(); None: apply_modifiers raised *)
@@ -32,7 +36,7 @@ Definition agree_one (t : list item) (e : expo) : bool :=
       && circuit_eqb (normalise raw) (normalise fl) && (nmeas raw =? nm)
   | _, _ => false
   end.
-Definition agree (c : case) : bool :=
+Definition agree_tree (c : tcase) : bool :=
   agree_one (c_tree c) (c_exp c) &&
   match c_unrolled c with Some (t, e) => agree_one t e | None => true end.
 
@@ -50,9 +54,13 @@ Definition spec_pair (lib : bool) (e1 e2 : expo) : bool :=
       multiset_eqb (flat r1) (flat r2) && (n1 =? n2) && (if lib then circuit_eqb (normalise r1) (normalise r2) else true)
   | _, _ => true
   end.
-Definition spec_ok (c : case) : bool :=
+Definition spec_tree (c : tcase) : bool :=
   spec_one (c_tree c) (c_exp c) &&
   match c_unrolled c with
   | Some (t, e) => spec_one t e && (if wf_tree (c_tree c) && wf_tree t then spec_pair (c_lib c) (c_exp c) e else true)
   | None => true
   end.
+
+Inductive case := KTree (c : tcase) | KLib (l : QCE.Lib.Run.lcase).
+Definition agree (c : case) : bool := match c with KTree x => agree_tree x | KLib l => QCE.Lib.Run.agree_lib l end.
+Definition spec_ok (c : case) : bool := match c with KTree x => spec_tree x | KLib l => QCE.Lib.Run.lib_stim_ok l end.
